@@ -106,11 +106,11 @@ func VerifC19Churn() {
 		close(c.gate)
 	}
 	blocked := symQuiesce()
-	symAssert(blocked == 0, "after all clients are gone no goroutine is left blocked forever")
 	h.m.Lock()
 	left := len(h.requests)
 	h.m.Unlock()
 	symAssert(left == 0, "after all clients are gone the registry is empty")
+	symAssert(blocked == 0, "after all clients are gone no goroutine is left blocked forever")
 }
 
 // VerifC19Delivery: a client connected for the whole broadcast receives it, also when another
